@@ -75,6 +75,14 @@ func (g *gen) smallPart(bal *big.Int, parts int) []byte {
 	return v.Bytes()
 }
 
+// partOrAll: the whole holding one time in four (the entry is then deleted: a different write path), else smallPart.
+func (g *gen) partOrAll(bal *big.Int, parts int) []byte {
+	if bal.Sign() > 0 && g.r.Intn(4) == 0 {
+		return new(big.Int).Set(bal).Bytes()
+	}
+	return g.smallPart(bal, parts)
+}
+
 // gasFor: {0, cost-1, cost, cost+1, big}; mostly big.
 func (g *gen) gasFor(cost uint64) uint64 {
 	switch g.r.Intn(16) {
